@@ -426,6 +426,162 @@ impl Stream for Histories
 }
 
 /// fixed probes for recorded defects (so that they stay visible)
+/// Hand-shaped module sets around the two rules that random splits reach
+/// only by luck: (1) an import is not re-exported — a module that imports
+/// `mid.pn` sees nothing of the `leaf.pn` that `mid.pn` imports, whatever kind
+/// the item is (constant, structure, word, function, function head) and in
+/// whatever order the files are given; importing both (a diamond) is fine;
+/// (2) an import names a file relative to the importing file's directory, so
+/// same-named files in other directories do not matter.
+struct Interfaces;
+const ITEM_KINDS: &[(&str, &str, &str, &[u16])] = &[
+	("constant", "pub const LIMIT: i32 = 7;", "var v: i32 = LIMIT;\n\tprint!(v, \"\\n\");", &[402]),
+	("structure", "pub struct Pair\n{\n\tleft: i32,\n\tright: i32,\n}", "var p = Pair { left: 3, right: 4 };\n\tprint!(p.right, \"\\n\");", &[405]),
+	("word", "pub word32 Halves\n{\n\tlo: i16,\n\thi: i16,\n}", "var h = Halves { lo: 5, hi: 6 };\n\tprint!(h.hi, \"\\n\");", &[405]),
+	("function", "pub fn twice(x: i32) -> i32\n{\n\treturn: x + x\n}", "var t: i32 = twice(21);\n\tprint!(t, \"\\n\");", &[401]),
+	("function head", "pub extern fn abs(x: i32) -> i32;", "var t: i32 = abs(-9);\n\tprint!(t, \"\\n\");", &[401]),
+];
+const ITEM_OUTPUT: &[&str] = &["7\n", "4\n", "6\n", "42\n", "9\n"];
+fn perm3(k: u64) -> [usize; 3]
+{
+	[[0, 1, 2], [0, 2, 1], [1, 0, 2], [1, 2, 0], [2, 0, 1], [2, 1, 0]][(k % 6) as usize]
+}
+impl Stream for Interfaces
+{
+	fn name(&self) -> String
+	{
+		"interface-chains-and-directories".into()
+	}
+	fn count(&self, _tier: Tier) -> u64
+	{
+		// kinds x {transitive only, direct, diamond} x 6 orders x mid uses it or not; 2 x 6 directory cases
+		(ITEM_KINDS.len() * 3 * 6 * 2 + 12) as u64
+	}
+	fn exhaustive(&self) -> bool
+	{
+		true
+	}
+	fn run(&self, idx: u64, _c: &mut Choices, ctx: &RunCtx) -> CaseOut
+	{
+		let mut out = CaseOut::default();
+		out.key = idx;
+		out.nontrivial = true;
+		let chain_cases = (ITEM_KINDS.len() * 3 * 6 * 2) as u64;
+		let (files, expect_ok, expected_out, codes, label): (Vec<(String, String)>, bool, String, Vec<u16>, String) = if idx < chain_cases
+		{
+			let order = perm3(idx);
+			let mid_uses = (idx / 6) % 2 == 1;
+			let variant = (idx / 12) % 3;
+			let kind = (idx / 36) as usize;
+			let (kname, decl, usage, codes) = ITEM_KINDS[kind];
+			let leaf = format!("{}\n\npub const OTHER: i32 = 1;\n", decl);
+			let mid_use = if mid_uses
+			{
+				format!("\n\nfn inside() -> i32\n{{\n\t{}\n\treturn: OTHER\n}}", usage)
+			}
+			else
+			{
+				String::new()
+			};
+			let mid = format!("import \"leaf.pn\";\n\npub fn distance(a: i32, b: i32) -> i32\n{{\n\treturn: a - b + OTHER - OTHER\n}}{}\n", mid_use);
+			let imports = match variant
+			{
+				0 => "import \"mid.pn\";\n",
+				1 => "import \"leaf.pn\";\n",
+				_ => "import \"mid.pn\";\nimport \"leaf.pn\";\n",
+			};
+			let dist = if variant == 1 { "" } else { "\tvar d: i32 = distance(10, 3);\n\tprint!(d, \"\\n\");\n" };
+			let top = format!("{}\nfn main() -> i32\n{{\n{}\t{}\n\treturn: 0\n}}\n", imports, dist, usage);
+			let all = [("leaf.pn", leaf), ("mid.pn", mid), ("top.pn", top)];
+			let files: Vec<(String, String)> = order.iter().map(|i| (all[*i].0.to_string(), all[*i].1.clone())).collect();
+			let want = format!("{}{}", if variant == 1 { "" } else { "7\n" }, ITEM_OUTPUT[kind]);
+			out.class(format!("chain:{}", ["transitive-only", "direct", "diamond"][variant as usize]));
+			out.class(format!("item:{}", kname));
+			(
+				files,
+				variant != 0,
+				want,
+				codes.to_vec(),
+				format!("{} of leaf.pn used from top.pn that imports {}", kname, ["only mid.pn", "leaf.pn", "mid.pn and leaf.pn"][variant as usize]),
+			)
+		}
+		else
+		{
+			let k = idx - chain_cases;
+			let order = perm3(k);
+			let main_in_b = k / 6 == 0;
+			let (own, other) = if main_in_b { ("b", "a") } else { ("a", "b") };
+			let val = |d: &str| if d == "a" { 1 } else { 2 };
+			let all = [
+				(format!("a/util.pn"), "pub const VALUE: i32 = 1;\n".to_string()),
+				(format!("b/util.pn"), "pub const VALUE: i32 = 2;\n".to_string()),
+				(format!("{}/main.pn", own), "import \"util.pn\";\n\nfn main() -> i32\n{\n\tprint!(VALUE, \"\\n\");\n\treturn: 0\n}\n".to_string()),
+			];
+			let _ = other;
+			let files: Vec<(String, String)> = order.iter().map(|i| all[*i].clone()).collect();
+			out.class("directories");
+			(files, true, format!("{}\n", val(own)), vec![], format!("import \"util.pn\" from {}/main.pn with a/util.pn and b/util.pn", own))
+		};
+		let o = alpha::compile_modules(
+			&files,
+			alpha::Options {
+				link: true,
+				..Default::default()
+			},
+		);
+		let detail = json!({"files": files_json(&files), "case": label, "result": o.summary()});
+		if let Some(e) = &o.internal_error
+		{
+			out.fail(format!("internal error {}", e.chars().take(50).collect::<String>()), detail);
+		}
+		else if !expect_ok
+		{
+			if o.ok
+			{
+				out.fail(format!("an imported module's own import is visible: {}", label), detail);
+			}
+			else if !o.codes.iter().any(|c| codes.contains(c))
+			{
+				out.fail(format!("rejected with {:?} instead of {:?}: {}", o.codes, codes, label), detail);
+			}
+		}
+		else if !o.ok
+		{
+			let mut cs = o.codes.clone();
+			cs.sort();
+			cs.dedup();
+			out.fail(format!("valid module set rejected {:?}: {}", cs, label), detail);
+		}
+		else
+		{
+			let r = alpha::run_ir(o.linked_ir.as_ref().unwrap(), 10);
+			if r.timed_out
+			{
+				out.discarded = Some("lli watchdog".into());
+			}
+			else if !r.stderr.is_empty()
+			{
+				out.fail(
+					format!("linked module set cannot be executed: {}", label),
+					json!({"files": files_json(&files), "stderr": String::from_utf8_lossy(&r.stderr).chars().take(400).collect::<String>()}),
+				);
+			}
+			else if String::from_utf8_lossy(&r.stdout) != expected_out
+			{
+				out.fail(
+					format!("module set prints something else: {}", label),
+					json!({"files": files_json(&files), "stdout": String::from_utf8_lossy(&r.stdout), "expected_stdout": expected_out}),
+				);
+			}
+		}
+		if ctx.want_sample
+		{
+			out.sample = Some(json!({"case": label, "files": files_json(&files)}));
+		}
+		out
+	}
+}
+
 struct Probes;
 impl Stream for Probes
 {
@@ -475,17 +631,17 @@ impl Check for C12
 	}
 	fn rule(&self) -> String
 	{
-		"(a) generated executable programs whose top-level declarations are randomly partitioned over 2-4 files; every item used from another file, and everything its interface mentions, becomes `pub`, and each file imports exactly the files it needs; the file list is compiled in up to 4 (quick) / all <= 24 (thorough) orders through one Compiler as src/main.rs does, linked and run; (b) the same with one needed `pub` removed, or one needed import removed (also when the imported file is still reachable transitively); (c) histories: 2-4 unrelated executable modules pushed through ONE Compiler in two orders, each also compiled alone. Oracle: (a) accepted in every order and stdout/exit status equal the single-file program's interpreter result; (b) rejected with E401/E402/E405; (c) each module's IR text is byte-identical whether compiled first, last or alone. Non-trivial: at least one item crosses a file boundary; distinct by file contents.".into()
+		"(a) generated executable programs whose top-level declarations are randomly partitioned over 2-4 files; every item used from another file, and everything its interface mentions, becomes `pub`, and each file imports exactly the files it needs; the file list is compiled in up to 4 (quick) / all <= 24 (thorough) orders through one Compiler as src/main.rs does, linked and run; (b) the same with one needed `pub` removed, or one needed import removed (also when the imported file is still reachable transitively); (b2) EVERY combination of {constant, structure, word, function, function head} exported by leaf.pn x {top.pn imports only mid.pn (which imports leaf.pn), imports leaf.pn, imports both} x {mid.pn uses the item or not} x all 6 file orders, and import \"util.pn\" from a/ or b/ with same-named files in both directories x all 6 orders (exhaustive, 192 sets); (c) histories: 2-4 unrelated executable modules pushed through ONE Compiler in two orders, each also compiled alone. Oracle: (b2) transitive-only use rejected with E401/E402/E405 in every order, direct and diamond imports accepted and the linked program prints the expected values, the sibling file is the one imported; (a) accepted in every order and stdout/exit status equal the single-file program's interpreter result; (b) rejected with E401/E402/E405; (c) each module's IR text is byte-identical whether compiled first, last or alone. Non-trivial: at least one item crosses a file boundary; distinct by file contents.".into()
 	}
 	fn assumptions(&self) -> Vec<String>
 	{
 		vec![
 			"a `pub` constant's initialiser may mention other constants: they are made `pub` and imported as well (the docs do not say whether private ones would work)".into(),
-			"file names m0.pn..m3.pn in one directory; URI schemes (core:, vendor:) are C18's subject".into(),
+			"generated splits use m0.pn..m3.pn in one directory; directories are covered by the hand-shaped sets; URI schemes (core:, vendor:) are C18's subject".into(),
 		]
 	}
 	fn streams(&self) -> Vec<Box<dyn Stream>>
 	{
-		vec![Box::new(SplitPrograms), Box::new(Negative), Box::new(Histories), Box::new(Probes)]
+		vec![Box::new(SplitPrograms), Box::new(Negative), Box::new(Histories), Box::new(Interfaces), Box::new(Probes)]
 	}
 }
